@@ -29,6 +29,10 @@ LAUTH_TRUSTED = [
     "translated from the C++ on every run: LocalAuthMiddleware::process of localauthmiddleware.cpp in the vocabulary of Qhttp/Model/AxPrim.lean (trusted); bridge theorems QhttpBridge.LocalAuth prove that it admits exactly when the value of the configured header is the token byte for byte (name compared up to case) and answers 403 otherwise",
 ]
 
+SRVP_TRUSTED = [
+    "translated from the C++ on every run: ServerPrivate::process of server.cpp, the lambda it connects to headersParsed() included (vocabulary Qhttp/Model/VxPrim.lean; trusted); bridge theorems QhttpBridge.SrvProcess prove that the HTTP socket is created, that disconnected() deletes it, and that the lambda is the model's serverRoute: with a root handler route(socket, path.mid(1)), without one 500",
+]
+
 SRV_TRUSTED = [
     "translated from the C++ on every run: Server::incomingConnection of server.cpp as the list of things done with the new connection (vocabulary Qhttp/Model/VxPrim.lean; trusted); bridge theorems QhttpBridge.Srv prove that ServerPrivate::process is called at once exactly when no TLS configuration is set (the model's `processed := !tls`), and that with a configuration it is only connected to encrypted(), an error deletes the socket, and the handshake is started with the descriptor and the configuration in place",
 ]
@@ -59,7 +63,7 @@ PROPS = {
     "C19": {"count": {"quick": 2500, "thorough": 50000}, "trusted": SOCK_TRUSTED,
             "rule": "1-3 concatenated requests (valid, malformed, garbage) x segmentations x handler behaviours (respond+close at once, later, never) x post-close API calls x late transport events"},
     "C05": {"count": {"quick": 3000, "thorough": 60000},
-            "trusted": SOCK_TRUSTED + ["parameter: QRegExp (indexIn, matchedLength, capturedTexts) — theorems hold for every matcher; the harness supplies Qt's answers for every pattern x every suffix of the path",
+            "trusted": SRVP_TRUSTED + SOCK_TRUSTED + ["parameter: QRegExp (indexIn, matchedLength, capturedTexts) — theorems hold for every matcher; the harness supplies Qt's answers for every pattern x every suffix of the path",
                                         "modelled, not verified: QChar::digitValue (table dumped from Qt 5.15.8), QString::mid, QString::toUtf8; the place-marker syntax of QString::arg (argScan) is the reference of the specification, proved equal to the code's own reading (tokGo_eq_argScan)"],
             "rule": "random handler trees (depth <= 3, <= 3 sub-handlers, <= 2 redirects and <= 2 middleware per node) over a vocabulary of anchored/unanchored QRegExp patterns and templates with %1 %2 %L1 %%; request targets over a segment alphabet with escapes (%0d%0a, %25, %2f, non-ASCII); 8% two-capture redirects answered with marker-like captures (%2, trailing %, leading digits, empty) against glued / two-marker / non-ASCII-digit templates; instrumented Handler/Middleware subclasses behind the real ServerPrivate::process on SimTcp"},
     "C06": {"count": {"quick": 3000, "thorough": 60000},
@@ -76,7 +80,7 @@ PROPS = {
             "trusted": SOCK_TRUSTED + AUTH_TRUSTED + ["modelled, not verified: QByteArray::fromBase64 (Qt's lenient decoder), QByteArray::split(' '), QMap lookup; credentials are compared as UTF-8 bytes (the harness registers well-formed NUL-free text)"],
             "rule": "credential tables of <= 4 users (prefixes / case variants of each other, empty password, ':' in password) x Authorization values: valid, near misses (scheme case, two spaces, tab, trailing space, missing colon, stripped padding, junk inside the token, NUL / BOM / invalid UTF-8 in the payload, other users' passwords), repeated headers, random bytes; through BasicAuthMiddleware attached to a Handler on a Socket over SimTcp"},
     "C10": {"count": {"quick": 600, "thorough": 12000},
-            "trusted": SOCK_TRUSTED + ["observed, not proved: heap behaviour (ASan/UBSan verdict of every run), live QObject accounting through Qt's qtHookData table, descriptor counts from /proc/self/fd",
+            "trusted": SRVP_TRUSTED + SOCK_TRUSTED + ["observed, not proved: heap behaviour (ASan/UBSan verdict of every run), live QObject accounting through Qt's qtHookData table, descriptor counts from /proc/self/fd",
                                         "the ownership protocol is modelled for the HTTP socket and the file copier (Life.lean); TLS and proxy connections are exercised by their own families without a lifetime model"],
             "rule": "one connection behind ServerPrivate::process with a filesystem handler (multi-block file, small file, listing, 404, malformed head) or a slot handler waiting for a body; the request is cut at a random byte, segments arbitrary; the connection is ended by the client, by the server or by destroying the Server at a random point among turns and acknowledgements; every scenario ends with both sides closed and four event-loop turns, then live objects and descriptors are counted"},
     "C11": {"count": {"quick": 4000, "thorough": 150000}, "trusted": SOCK_TRUSTED + [
@@ -101,7 +105,7 @@ PROPS = {
                         "qint64 modelled as Int; theorem no_overflow shows no intermediate leaves 64 bits for magnitudes < 2^62"],
             "rule": "exhaustive cube of (from,to,size) over [-K,K]^3 through the numeric constructor, all strings over {0,7,-,space,x,1} up to length L with five sizes, then boundary-biased numbers (around 2^31, 2^62) through numeric/assignment/copy-with-size/string construction; every accessor and the Content-Range text compared"},
     "C20": {"count": {"quick": 120, "thorough": 3000},
-            "trusted": SRV_TRUSTED + ["QSslSocket: that clear text cannot complete a handshake, record-level behaviour — observed over loopback with the certificate of /repo/tests, not proved",
+            "trusted": SRVP_TRUSTED + SRV_TRUSTED + ["QSslSocket: that clear text cannot complete a handshake, record-level behaviour — observed over loopback with the certificate of /repo/tests, not proved",
                         "the gate in Server::incomingConnection is modelled by hand (Tls.lean); after the handshake the connection is the socket model of C01-C06"],
             "rule": "a real Server on loopback with and without TLS configuration; clear-text clients sending valid requests, partial / bit-flipped ClientHello records, random bytes, nothing; TLS clients completing the handshake and sending a request; handler/middleware call log, first bytes received by the client and the server's child objects after the client left are compared"},
 }
@@ -175,6 +179,7 @@ PARSER_ALL = ["QhttpBridge.Parser"]
 FS_ALL = ["QhttpBridge.Fs.AbsolutePath", "QhttpBridge.Fs.Process"]
 
 BRIDGE_NEEDS = {
+    "QhttpBridge.SrvProcess": ["ServerPrivate::process"],
     "QhttpBridge.Srv": ["Server::incomingConnection"],
     "QhttpBridge.LocalAuth": ["LocalAuthMiddleware::process"],
     "QhttpBridge.Slot": ["QObjectHandler::process"],
@@ -230,6 +235,8 @@ BRIDGES = {
     "C09": ["QhttpBridge.Auth"],
     "C15": ["QhttpBridge.Slot"],
     "C17": ["QhttpBridge.LocalAuth"],
-    "C20": ["QhttpBridge.Srv"],
+    "C20": ["QhttpBridge.Srv", "QhttpBridge.SrvProcess"],
+    "C05": ["QhttpBridge.SrvProcess"],
+    "C10": ["QhttpBridge.SrvProcess"],
 }
 ALL_BRIDGE_MODULES = sorted({m for v in BRIDGES.values() for m in v})
